@@ -731,7 +731,7 @@ func (env *specEnv) evalCall(e *SExpr) sval {
 		if a.t.Sort != StrSort || b.t.Sort != StrSort {
 			env.fail(e, "strcat needs two strings")
 		}
-		fv.c.DeclareFun("str_cat", []string{StrSort, StrSort}, StrSort)
+		fv.declareStrCat()
 		return sval{smt.App(StrSort, "str_cat", a.t, b.t), types.Typ[types.String]}
 	case "netcontains":
 		// netcontains(n, ip): what n.Contains(ip) yields in the current state (n a *net.IPNet)
